@@ -1,6 +1,9 @@
 // ---- prelude/libxcp_40_walk.rs: walkdir stand-ins and the path-mapping rule (C02) ----
 /// A-walk: the walk of a root is a fixed finite sequence of items (entries or errors), determined by the root and the filter in force
-pub uninterp spec fn walk_seq(root: PathKey) -> Seq<std::result::Result<walkdir::DirEntry, walkdir::Error>>;
+/// `follow` is walkdir's follow_links setting: with it the walk descends into directories reached through symbolic links (yielding the
+/// entries beneath them under the link's path) and reports a link loop or a dangling link as an error item; without it a link is a leaf.
+pub uninterp spec fn walk_of(root: PathKey, follow: bool) -> Seq<std::result::Result<walkdir::DirEntry, walkdir::Error>>;
+pub open spec fn walk_seq(root: PathKey) -> Seq<std::result::Result<walkdir::DirEntry, walkdir::Error>> { walk_of(root, false) }
 
 pub mod walkdir {
     use super::*;
@@ -18,19 +21,28 @@ pub mod walkdir {
     pub struct WalkDir { x: u8 }
     impl WalkDir {
         pub uninterp spec fn root(&self) -> PathKey;
+        pub uninterp spec fn follow(&self) -> bool;
+        /// walkdir's default: links are not followed
         #[verifier::external_body]
-        pub fn new(p: &Path) -> (r: WalkDir) ensures r.root() == p.key() { unimplemented!() }
+        pub fn new(p: &Path) -> (r: WalkDir) ensures r.root() == p.key(), !r.follow() { unimplemented!() }
         #[verifier::external_body]
-        pub fn into_iter(self) -> (r: IntoIter) ensures r.root() == self.root() { unimplemented!() }
+        pub fn follow_links(self, yes: bool) -> (r: WalkDir) ensures r.root() == self.root(), r.follow() == yes { unimplemented!() }
+        #[verifier::external_body]
+        pub fn follow_root_links(self, yes: bool) -> (r: WalkDir) ensures r.root() == self.root(), r.follow() == self.follow() { unimplemented!() }
+        #[verifier::external_body]
+        pub fn same_file_system(self, yes: bool) -> (r: WalkDir) { unimplemented!() }
+        #[verifier::external_body]
+        pub fn into_iter(self) -> (r: IntoIter) ensures r.root() == self.root(), r.follow() == self.follow() { unimplemented!() }
     }
     #[verifier::external_body]
     pub struct IntoIter { x: u8 }
     impl IntoIter {
         pub uninterp spec fn root(&self) -> PathKey;
+        pub uninterp spec fn follow(&self) -> bool;
         /// filter_entry prunes *entries* the predicate rejects (and what lies beneath them); errors are passed through.
-        /// The filtered walk is what `walk_seq(root)` stands for.
+        /// The filtered walk is what `walk_of(root, follow)` stands for.
         #[verifier::external_body]
-        pub fn filter_entry<P: FnMut(&DirEntry) -> bool>(self, pred: P) -> (r: FilterEntry) ensures r.root() == self.root(), walk_remaining(&r) == walk_seq(self.root()) { unimplemented!() }
+        pub fn filter_entry<P: FnMut(&DirEntry) -> bool>(self, pred: P) -> (r: FilterEntry) ensures r.root() == self.root(), walk_remaining(&r) == walk_of(self.root(), self.follow()) { unimplemented!() }
     }
     #[verifier::external_body]
     pub struct FilterEntry { x: u8 }
